@@ -508,11 +508,53 @@ Definition get_parameters_at_instant (m : mode) (s : sys) (i : Z) : sys * option
 
 (** *** Writing *)
 
-(** parameters.a.b.update(start=, stop=, value=) on a tree: only leaves have an update
-    method; a missing member is an AttributeError. *)
+Fixpoint replace {A} (k : nat) (x : A) (l : list A) : list A :=
+  match l, k with
+  | [], _ => []
+  | _ :: r, O => x :: r
+  | y :: r, S k' => y :: replace k' x r
+  end.
+
+
+(** scale.brackets[i].<field>.update(...): the parameters of a bracket.  The index is
+    written in decimal in the path; brackets[i] beyond the list is an IndexError, a field
+    the bracket does not declare an AttributeError. *)
+Definition set_bracket_field (b : bracket) (f : string) (u : upd Z) : res bracket :=
+  let upd_field (o : option (hist Z)) (k : option (hist Z) -> bracket) : res bracket :=
+    match o with Some h => Ok (k (Some (apply_update h u))) | None => Err EOther end in
+  if String.eqb f "threshold" then
+    upd_field (b_threshold b) (fun x => mk_bracket x (b_rate b) (b_amount b) (b_average_rate b))
+  else if String.eqb f "rate" then
+    upd_field (b_rate b) (fun x => mk_bracket (b_threshold b) x (b_amount b) (b_average_rate b))
+  else if String.eqb f "amount" then
+    upd_field (b_amount b) (fun x => mk_bracket (b_threshold b) (b_rate b) x (b_average_rate b))
+  else if String.eqb f "average_rate" then
+    upd_field (b_average_rate b) (fun x => mk_bracket (b_threshold b) (b_rate b) (b_amount b) x)
+  else Err EOther.
+
+Definition scale_update (sc : scale) (idx f : string) (u : upd Z) : res scale :=
+  match digits_val 0 idx with
+  | None => Err EOther
+  | Some i =>
+      match nth_error (s_brackets sc) (Z.to_nat i) with
+      | None => Err EIndex
+      | Some b =>
+          match set_bracket_field b f u with
+          | Err e => Err e
+          | Ok b' => Ok (mk_scale (s_single_amount sc) (replace (Z.to_nat i) b' (s_brackets sc)))
+          end
+      end
+  end.
+
+(** parameters.a.b.update(start=, stop=, value=) on a tree (also spelled
+    parameters.a.b.values_history.update(...): the attribute values_history of a
+    parameter is the parameter itself): only leaves and the parameters of scale brackets
+    have an update method; a missing member is an AttributeError. *)
 Fixpoint tree_update (t : tree) (p : path) (u : upd Z) {struct t} : res tree :=
   match t, p with
   | TParam h, [] => Ok (TParam (apply_update h u))
+  | TScale sc, [idx; f] =>
+      match scale_update sc idx f u with Ok sc' => Ok (TScale sc') | Err e => Err e end
   | TNode ch, n :: p' =>
       match
         (fix go (l : list (string * tree)) : res (list (string * tree)) :=
@@ -547,13 +589,6 @@ Inductive op :=
 Definition ans := (res rd * tlog)%type.
 Definition done : ans := (Ok RNone, []).
 Definition failed (e : err) : ans := (Err e, []).
-
-Fixpoint replace {A} (k : nat) (x : A) (l : list A) : list A :=
-  match l, k with
-  | [], _ => []
-  | _ :: r, O => x :: r
-  | y :: r, S k' => y :: replace k' x r
-  end.
 
 (** a read by one route on one system *)
 Definition read_sys (m : mode) (s : sys) (r : route) (p : path) (i : Z) (t : tail) : sys * ans :=
